@@ -115,7 +115,7 @@ fn faults(ctx: &mut Ctx, e: &Envelope, comp: &Envelope, rng: &mut crate::rng::Rn
 }
 
 pub fn run(ctx: &mut Ctx) {
-    let total = ctx.n(16_000, 400_000);
+    let total = ctx.n(16_000, 8_000);
     for case in ctx.cases(total) {
         ctx.begin_case(case);
         let mut rng = ctx.rng(case);
